@@ -15,6 +15,7 @@ import (
 	"strconv"
 	"strings"
 	"sync"
+	"time"
 
 	"github.com/jdillenkofer/pithos/internal/storage"
 	"github.com/jdillenkofer/pithos/internal/verif/vkit"
@@ -169,6 +170,7 @@ type c05ctx struct {
 	mu    sync.Mutex
 	seen  map[string]int
 	exh   *exhStats
+	guard *stallGuard
 }
 
 type exhStats struct {
@@ -435,6 +437,10 @@ func (c *c05ctx) check(o *c05obj, specs []rspec, sep string, tcp bool, storageTo
 	size := int64(len(o.content))
 	ref := refResolve(specs, size)
 	hdr := rangeHeader(specs, sep)
+	if c.guard != nil {
+		id := c.guard.begin(fmt.Sprintf("C05 %s %s Range: %s", c.stack, o.shape.label(), hdr))
+		defer c.guard.end(id)
+	}
 	class := rangeClass(specs, ref, size)
 	c.r.Count("ranges_by_class:"+class, 1)
 	if len(ref.Sat) > 0 && ref.Valid {
@@ -993,6 +999,7 @@ func runC05(tier, replay string) {
 	}
 	base := r.Rand()
 	exh := &exhStats{}
+	guard := newStallGuard(r, 120*time.Second)
 	var wg sync.WaitGroup
 	stacks := c05Stacks
 	if v := os.Getenv("VERIF_C05_STACKS"); v != "" { // developer aid: restrict the stack list
@@ -1004,6 +1011,7 @@ func runC05(tier, replay string) {
 			r.Inconclusive("cannot build stack " + stack + ": " + err.Error())
 			continue
 		}
+		c.guard = guard
 		wg.Add(1)
 		go func() {
 			defer wg.Done()
